@@ -902,7 +902,12 @@ found:
 			if escape {
 				// Continuation line - remove \ then continue
 				if c == '\n' {
-					buf.Truncate(buf.Len() - 1)
+					if rawString {
+						// in a raw string the backslash and the newline stay
+						_, _ = buf.WriteRune(c)
+					} else {
+						buf.Truncate(buf.Len() - 1)
+					}
 					continued = true
 					goto readMore
 				}
